@@ -260,6 +260,9 @@ func (r *Report) Finish(t *testing.T) {
 		unlisted++
 		h := sha256.Sum256([]byte(s))
 		dir := filepath.Join(VerifDir(), "replays", r.Property)
+		if d := os.Getenv("VERIF_REPLAY_DIR"); d != "" {
+			dir = filepath.Join(d, r.Property)
+		}
 		_ = os.MkdirAll(dir, 0o755)
 		path := filepath.Join(dir, hex.EncodeToString(h[:6])+".json")
 		rb, _ := json.MarshalIndent(map[string]interface{}{
